@@ -99,6 +99,11 @@ func TestC07(t *testing.T) {
 		W := []int{1, 2, 3, 8, 32}[r.IntN(5)]
 		per := 1 + r.IntN(200/W+1)
 		mc := memnet.NewConn()
+		// a third of the runs use a transport whose Write is not atomic per call
+		// (chunks of 200 bytes, other writers may get in between)
+		if c.I%3 == 2 {
+			mc.NonAtomic, mc.ChunkSize = true, 200
+		}
 		var stallCtr atomic.Uint32
 		stallSeed := r.Uint32()
 		mc.Script = func(seq int, b []byte) memnet.Outcome {
@@ -161,7 +166,7 @@ func TestC07(t *testing.T) {
 			return
 		}
 		order, problem := checkWireLog(mc.Written(), okIDs, sizes)
-		c.Class("writers=%d", W)
+		c.Class("writers=%d/non-atomic-transport=%v", W, mc.NonAtomic)
 		if problem != "" {
 			c.Fail(ev.Sig{"op": "wire-log", "writers": W}, nil, nil, "%d writers x %d messages: %s", W, per, problem)
 			return
